@@ -204,8 +204,23 @@ def build(spec, **extra_kwargs):
     raise ValueError(cls)
 
 
+def display_opts(name):
+    """the display-related options a named `itstat_options` amounts to (defaults of IterationStats otherwise)"""
+    d = {"display": False, "period": 1, "shift_cycles": True, "overwrite": True}
+    if name is None:
+        return d
+    o = itstat_options(name)
+    for k in d:
+        if k in o:
+            d[k] = o[k]
+    return d
+
+
 def itstat_options(name):
     """named statistics options (JSON-able reference to a dict that may hold a function)"""
+    if name.startswith("disp:"):  # disp:<period>:<shift_cycles 0/1>:<overwrite 0/1>
+        _, p, sh, ov = name.split(":")
+        return {"display": True, "period": int(p), "shift_cycles": bool(int(sh)), "overwrite": bool(int(ov))}
     if name == "display":
         return {"display": True, "period": 2, "overwrite": False}
     if name == "display-overwrite":
@@ -357,6 +372,9 @@ def run_history(spec, ops, step_ticks, cb_ticks, clock0=0, ctl=None):
             cblog.append(seen)
 
         names = list(s.itstat_object.fieldname)
+        iso = s.itstat_object
+        header = iso.disphdr  # None unless displaying
+        rowfmt = (" " * iso.colsep).join(iso.fieldformat)
         for o in ops:
             if o["op"] == "solve":
                 s.maxiter = int(o["maxiter"])
@@ -381,7 +399,15 @@ def run_history(spec, ops, step_ticks, cb_ticks, clock0=0, ctl=None):
                 out["steps"] = state["k"]
                 out["elapsed"] = _num(s.timer.elapsed())
                 out["running"] = s.timer.t0.get("main") is not None
-                out["printed"] = len(buf.getvalue())
+                out["printed_text"] = buf.getvalue()
+                if iso.display:
+                    # the text of each new record, formatted the way `insert` formats it
+                    out["row_text"] = {}
+                    for nn in range(nrows0, len(hist)):
+                        try:
+                            out["row_text"][nn] = rowfmt % tuple(hist[nn])
+                        except Exception as e:  # noqa: BLE001
+                            out["row_text"][nn] = f"<unformattable: {type(e).__name__}>"
                 obs.append(out)
             elif o["op"] == "step":
                 s.step()
@@ -406,7 +432,7 @@ def run_history(spec, ops, step_ticks, cb_ticks, clock0=0, ctl=None):
             ) and len(tr) == len(hist[0])
         else:
             tr_ok = tr == []
-    return {"obs": obs, "names": names, "transpose_ok": tr_ok, "clock_reads": clock.reads}
+    return {"obs": obs, "names": names, "transpose_ok": tr_ok, "clock_reads": clock.reads, "header": header}
 
 
 def _num(v):
